@@ -39,13 +39,15 @@ Definition chk_ring (c : ring_obs) : bool :=
   | _, _ => false
   end.
 
-(* NaN filtering: coordinates of pixel (r, c) are (c, r) as floats, NaN on the listed pixels *)
-Definition nan_coord (nans : list pix) (p : pix) : float * float :=
-  if existsb (pix_eqb p) nans then (PrimFloat.nan, Z2F (fst p)) else (Z2F (snd p), Z2F (fst p)).
+(* NaN filtering: the coordinates of pixel (r, c) are (lon, lat) = (c, r) as floats, with a NaN longitude /
+   latitude on the listed pixels *)
+Definition nan_coord (nlon nlat : list pix) (p : pix) : float * float :=
+  ((if existsb (pix_eqb p) nlon then PrimFloat.nan else Z2F (snd p)),
+   (if existsb (pix_eqb p) nlat then PrimFloat.nan else Z2F (fst p))).
 Definition coord_pix (q : float * float) : pix := (floorZ F64 (snd q), floorZ F64 (fst q)).
-Definition chk_nan (c : Z * Z * option Z * list pix * option (list (list pix))) : bool :=
-  let '(h, w, vps, nans, exp) := c in
-  let s := map (map (nan_coord nans)) (f_sides h w vps) in
+Definition chk_nan (c : Z * Z * option Z * list pix * list pix * option (list (list pix))) : bool :=
+  let '(h, w, vps, nlon, nlat, exp) := c in
+  let s := map (map (nan_coord nlon nlat)) (f_sides h w vps) in
   match filter_sides_nans F64 s, exp with
   | Some f, Some e => sides_eqb (map (map coord_pix) f) e
   | None, None => true
